@@ -108,6 +108,45 @@ def run_vh(vh, args, records=None, stdin_text=None, timeout=3600, env=None):
     return out
 
 
+def run_vh_isolated(vh, args, records, chunk=256, timeout=120):
+    """Like run_vh, but survives the death of the harness process (stack overflow, abort) and hangs: the batch is bisected
+    until the single input that kills / hangs the worker is isolated.  Returns (results by id, {id: "died:<signal>" | "hung"})."""
+    results, dead = {}, {}
+
+    def attempt(part, limit):
+        text = "".join(json.dumps(r, ensure_ascii=False) + "\n" for r in part)
+        e = dict(os.environ)
+        e.setdefault("RUST_MIN_STACK", str(64 * 1024 * 1024))
+        try:
+            p = subprocess.run([vh] + args, input=text, capture_output=True, text=True, timeout=limit, env=e)
+        except subprocess.TimeoutExpired:
+            return "hung"
+        if p.returncode != 0:
+            return "died:%d" % p.returncode
+        for line in p.stdout.splitlines():
+            if line.strip():
+                o = json.loads(line)
+                results[o["id"]] = o
+        return None
+
+    def go(part, limit):
+        if not part:
+            return
+        why = attempt(part, limit)
+        if why is None:
+            return
+        if len(part) == 1:
+            dead[part[0]["id"]] = why
+            return
+        mid = len(part) // 2
+        go(part[:mid], max(30, limit // 2) if why == "hung" else limit)
+        go(part[mid:], max(30, limit // 2) if why == "hung" else limit)
+
+    for off in range(0, len(records), chunk):
+        go(records[off:off + chunk], timeout)
+    return results, dead
+
+
 # ------------------------------------------------------------------------------------------------
 # TLC
 
